@@ -374,6 +374,9 @@ func c09Run(env *verifsim.Env, raw json.RawMessage) *verifsim.Violation {
 				st := docState{rev: doc.GetRevTreeID(), seq: doc.Sequence, cas: doc.Cas, revs: len(doc.History), leaves: len(doc.History.GetLeaves()), deleted: doc.IsDeleted()}
 				if !st.deleted {
 					b, err := coll.Get1xBody(ctx, key)
+					if err != nil {
+						s.Debugf("C09 readAll %s: GetDocument says live (rev %s, flags %v, history %v) but Get1xBody fails: %v", key, st.rev, doc.Flags, doc.History[st.rev], err)
+					}
 					if err == nil {
 						delete(b, BodyId)
 						delete(b, BodyRev)
@@ -422,7 +425,16 @@ func c09Run(env *verifsim.Env, raw json.RawMessage) *verifsim.Violation {
 			wb, _ := json.Marshal(want)
 			if string(wb) != st.body {
 				lmu.Unlock()
-				return verifsim.Vf("C09", "body", "%s: the gateway serves body %s but the latest mutation in the bucket is %s", key, st.body, wb)
+				v := verifsim.Vf("C09", "body", "%s: the gateway serves body %s but the latest mutation in the bucket is %s", key, st.body, wb)
+				// recorded finding (C05 / C07 / C01 / C04 / C08): a gateway write that makes a tombstoned document live again is
+				// an insert without compare-and-swap; here it landed on the tombstone another task had just stored (the import
+				// of an external delete), leaving metadata of a live revision over the body of a deleted document
+				for i := 1; i < len(muts); i++ {
+					if muts[i].Op == "WriteResurrectionWithXattrs" && muts[i-1].Op == "WriteTombstoneWithXattrs" && muts[i-1].Node != muts[i].Node && st.body == "" {
+						v.Key = "unguarded-resurrection-write"
+					}
+				}
+				return v
 			}
 		} else if last.External && !last.Delete {
 			lmu.Unlock()
